@@ -15,7 +15,7 @@ LEVEL = "translation_validation"
 def run(tier, rep):
     build_harness()
     progs = fam_c08.programs(tier)
-    cases, counts = famcheck.run_families("C08", rep, progs, "c08")
+    cases, counts = famcheck.run_families("C08", rep, progs, "c08", goinvalid_is_violation=True)
     rep.coverage["go_invalid_not_decidable_here"] = counts.get("go-invalid", 0)
     rep.assumptions += famcheck.STD_ASSUMPTIONS + [
         "programs whose emitted Go is rejected by GoStatic (closure environment struct where a func type is expected: known C02 finding) cannot be executed "
